@@ -32,6 +32,7 @@ func init() {
 
 func c18World(g *rng.R, class string) *world.World {
 	cfg := world.DefaultCfg()
+	cfg.DottedNames = 0.25
 	cfg.NamedEgressIP = 0.02
 	cfg.MaxWorkloads = 5
 	switch class {
@@ -120,8 +121,18 @@ func runC18(c *run.Ctx) {
 			r.Ev("flag_exposure", 1)
 			nondefault++
 		}
-		if g.P(0.35) && len(w.Workloads) > 0 {
+		pFocus := 0.35
+		dotted := -1
+		for i := range w.Workloads {
+			if strings.Contains(w.Workloads[i].Name, ".") {
+				dotted, pFocus = i, 0.7
+			}
+		}
+		if g.P(pFocus) && len(w.Workloads) > 0 {
 			wl := rng.Pick(g, w.Workloads)
+			if dotted >= 0 && g.P(0.7) { // a dotted (DNS-subdomain) workload name is a valid focus argument
+				wl = w.Workloads[dotted]
+			}
 			opts.Focus = rng.Pick(g, []string{wl.Name, wl.Ns + "/" + wl.Name, "nosuch", "ingress-controller"})
 			if len(fixtureNames) > 0 {
 				opts.Focus = rng.Pick(g, append(fixtureNames, "nosuch"))
